@@ -53,6 +53,7 @@ class D3(Dialect):
 
 
 POOL = [None, D1, D2, D3]
+REF_CACHE = {}
 
 
 def build_family(default_dialect=None):
@@ -65,9 +66,13 @@ def build_family(default_dialect=None):
     def ns(q):
         return {"Config": type("Config", (BaseConfig,), dict(cfg)), "__module__": __name__, "__qualname__": q}
 
-    Parent = dataclasses.make_dataclass("Parent", [("a", int)], bases=(DataClassDictMixin,), namespace=ns("Parent"))
+    from mashumaro.mixins.msgpack import DataClassMessagePackMixin
+
+    Parent = dataclasses.make_dataclass("Parent", [("a", int)], bases=(DataClassMessagePackMixin,), namespace=ns("Parent"))
     C = dataclasses.make_dataclass("C", [("d", datetime.date, F(default=datetime.date(2000, 1, 1))),
-                                         ("o", typing.Optional[int], F(default=None))], bases=(Parent,), namespace=ns("C"))
+                                         ("o", typing.Optional[int], F(default=None)),
+                                         ("b", bytes, F(default=b"\x00\x01")),
+                                         ("l", typing.List[int], F(default_factory=list))], bases=(Parent,), namespace=ns("C"))
     Sub = dataclasses.make_dataclass("Sub", [("z", int, F(default=0))], bases=(C,), namespace=ns("Sub"))
     return {"Parent": Parent, "C": C, "Sub": Sub}
 
@@ -82,26 +87,27 @@ def sample(cls, a=1, d=None, o=None):
 
 # ------------------------------------------------------------------ (a) isolation
 class IsoInput(symval.Node):
-    def __init__(self, ctx, k):
+    def __init__(self, ctx, k, small=False):
         # pre-event: 0 = nothing, else (class, dialect, direction)
-        self.opts = [None] + [(c, dj, dr) for c in ("Parent", "C", "Sub") for dj in (1, 2, 3) for dr in ("to", "from")]
+        self.opts = [None] + [(c, dj, dr) for c in (("C", "Sub") if small else ("Parent", "C", "Sub"))
+                              for dj in ((1, 2) if small else (1, 2, 3)) for dr in ("to", "from", "to_fmt", "from_fmt")]
         self.ev = [ctx.new("k", "int", "0 <= $ < %d" % len(self.opts)) for _ in range(k)]
         self.final_d = ctx.new("k", "int", "0 <= $ < 4")
         self.final_cls = ctx.new("k", "int", "0 <= $ < 2")
         self.a = ctx.new("i", "int")
         self.o_none = ctx.new("z", "bool")
         self.o = ctx.new("i", "int")
-        self.dsel = ctx.new("k", "int", "0 <= $ < 2")
+        self.dsel = ctx.new("k", "int", "0 <= $ < %d" % (1 if small else 2))
 
     def make(self, env):
         evs = [self.opts[pick(env[e], len(self.opts))] for e in self.ev]
         return evs, pick(env[self.final_d], 4), ("C", "Sub")[pick(env[self.final_cls], 2)]
 
 
-def make_input_plan(T, variant, k=1, **kw):
+def make_input_plan(T, variant, k=1, small=False, **kw):
     ctx = symval.Ctx()
     if variant.startswith("iso"):
-        return ctx, IsoInput(ctx, k)
+        return ctx, IsoInput(ctx, k, small)
     if variant == "merge":
         return ctx, MergeInput(ctx, "opts")
     if variant == "merge_s":
@@ -120,21 +126,42 @@ def do_event(fam, ev):
     kw = {"dialect": POOL[dj]} if POOL[dj] is not None else {}
     if dr == "to":
         x.to_dict(**kw)
+    elif dr == "to_fmt":
+        x.to_msgpack(encoder=ident, **kw)
+    elif dr == "from_fmt":
+        if dj not in REF_CACHE:
+            REF_CACHE[dj] = build_family(POOL[dj])
+        d = sample(REF_CACHE[dj][cname]).to_msgpack(encoder=ident)
+        cls.from_msgpack(d, decoder=ident, **kw)
     else:
-        d = sample(build_family(POOL[dj])[cname]).to_dict()
+        if dj not in REF_CACHE:
+            REF_CACHE[dj] = build_family(POOL[dj])
+        d = sample(REF_CACHE[dj][cname]).to_dict()
         cls.from_dict(d, **kw)
 
 
 def iso_main(S, env):
     evs, dj, cname = S.node.make(env)
-    direction = "to" if S.variant == "iso_to" else "from"
+    direction = {"iso_to": "to", "iso_from": "from", "iso_tofmt": "to_fmt", "iso_fromfmt": "from_fmt"}[S.variant]
+
+    def enc(obj, **k):
+        return obj.to_msgpack(encoder=ident, **k) if direction.endswith("fmt") else obj.to_dict(**k)
+
+    def dec(cls, doc, **k):
+        return cls.from_msgpack(doc, decoder=ident, **k) if direction.endswith("fmt") else cls.from_dict(doc, **k)
     D = POOL[dj]
     dates = [datetime.date(2021, 3, 4), datetime.date(2000, 1, 1)]
-    date = dates[pick(env[S.node.dsel], 2)]
+    date = dates[pick(env[S.node.dsel], 2)] if S.node.dsel else dates[0]
     with notrace():
         fam = build_family()
-        ref = build_family(D)  # the freshly built class with D as default dialect
-        plain = build_family()  # untouched twin for the dialect-less behaviour
+        # reference classes are only ever called without a dialect argument, so one instance per default dialect can be
+        # shared by all paths of this process: ref = class built with D as its default dialect, plain = untouched twin
+        if dj not in REF_CACHE:
+            REF_CACHE[dj] = build_family(D)
+        if "plain" not in REF_CACHE:
+            REF_CACHE["plain"] = build_family()
+        ref = REF_CACHE[dj]
+        plain = REF_CACHE["plain"]
         try:
             for ev in evs:
                 do_event(fam, ev)
@@ -144,17 +171,17 @@ def iso_main(S, env):
         kw = {"dialect": D} if D is not None else {}
         x0 = sample(fam[cname])
         r0 = sample(ref[cname])
-        if direction == "to":
-            st, d0 = call(lambda: x0.to_dict(**kw))
+        if direction.startswith("to"):
+            st, d0 = call(lambda: enc(x0, **kw))
             if st == "exc":
                 return fail("C13/call-with-dialect-raised:%s" % type(d0).__name__, events=evs, dialect=D, exc=d0)
-            if d0 != r0.to_dict():
-                return fail("C13/dialect-call-differs-from-default-dialect-class", events=evs, dialect=D, got=d0, want=r0.to_dict())
+            if d0 != enc(r0):
+                return fail("C13/dialect-call-differs-from-default-dialect-class", events=evs, dialect=D, got=d0, want=enc(r0))
         else:
-            st, y0 = call(lambda: fam[cname].from_dict(r0.to_dict(), **kw))
+            st, y0 = call(lambda: dec(fam[cname], enc(r0), **kw))
             if st == "exc":
                 return fail("C13/call-with-dialect-raised:%s" % type(y0).__name__, events=evs, dialect=D, exc=y0)
-            r0 = ref[cname].from_dict(r0.to_dict())
+            r0 = dec(ref[cname], enc(r0))
             if dataclasses.asdict(y0) != dataclasses.asdict(r0):
                 return fail("C13/dialect-call-differs-from-default-dialect-class", events=evs, dialect=D, got=y0, want=r0)
     # traced observation with symbolic data
@@ -163,15 +190,18 @@ def iso_main(S, env):
     x = fam[cname](a=a, d=date, o=o) if cname == "C" else fam[cname](a=a, d=date, o=o, z=3)
     r = ref[cname](a=a, d=date, o=o) if cname == "C" else ref[cname](a=a, d=date, o=o, z=3)
     p = plain[cname](a=a, d=date, o=o) if cname == "C" else plain[cname](a=a, d=date, o=o, z=3)
-    if direction == "to":
-        st, got = call(lambda: x.to_dict(**kw))
-        want = r.to_dict()
+    if direction.startswith("to"):
+        st, got = call(lambda: enc(x, **kw))
+        want = enc(r)
         if st == "exc" or list(got.items()) != list(want.items()):
             return fail("C13/dialect-call-differs-from-default-dialect-class", events=evs, dialect=D, got=got, want=want)
+        # a list must be a copy unless the dialect in force says otherwise (dict format: never by reference here)
+        if not direction.endswith("fmt") and got.get("l") is x.l:
+            return fail("C13/dialect-call-shares-list-like-another-format", events=evs, dialect=D)
     else:
-        doc = r.to_dict()
-        rr = ref[cname].from_dict(doc)
-        st, got = call(lambda: fam[cname].from_dict(doc, **kw))
+        doc = enc(r)
+        rr = dec(ref[cname], doc)
+        st, got = call(lambda: dec(fam[cname], doc, **kw))
         if st == "exc" or dataclasses.asdict(got) != dataclasses.asdict(rr):
             return fail("C13/dialect-call-differs-from-default-dialect-class", events=evs, dialect=D, got=got, want=rr, doc=doc)
     # such calls never alter the default behaviour
@@ -398,7 +428,7 @@ def uni_main(S, env):
     return True
 
 
-def setup(T, NODE, CTX, variant, k=1, fmt=None, dname=None):
+def setup(T, NODE, CTX, variant, k=1, fmt=None, dname=None, small=False):
     S = S_()
     S.node, S.ctx, S.variant = NODE, CTX, variant
     if variant.startswith("uni"):
